@@ -7,7 +7,7 @@ from rules import anchors, common
 
 CLAIMED = True
 TECHNIQUE = "static analysis over type-checked MIR: single-snapshot-load dominance in Log::{log,enabled,flush}, snapshot immutability/ownership inventory, build-then-store ordering, lock-free delivery cone, reloader loop/edge reachability"
-LEVEL_TEXT = """Static, all-paths decision of: (A1) each of Log::log/enabled/flush has exactly one ArcSwap::load site, outside any loop, and every access to the snapshot's fields (root, appender table, error handler) goes through that one guard; (A2) Logger holds one Arc<ArcSwap<snapshot>>, the snapshot owns tree and appender table, has no interior mutability of its own, its aggregate is built only in the constructor and the tree's mutator is called only from the constructor and itself; (A3) Handle::set_config builds a complete snapshot from the new config before the single store, which lies on every path to return; (A4) the delivery cone of Log::log (cut at dyn Append/Filter) acquires no lock, so a re-entrant set_config cannot self-deadlock; (A5) reloader control flow: in run the Err arm returns to the loop head and only Ok(None) leaves; in run_once set_config is dominated by the Ok edge of Format::parse and control-dependent on the text having changed, the unchanged-mtime/unchanged-text edges return Ok(Some(rate)) without reaching the handle, and the new rate is the parsed config's refresh_rate(). arc-swap's own guarantees, real interleavings and file-system timestamps are not decided."""
+LEVEL_TEXT = """Static, all-paths decision of: (A1) each of Log::log/enabled/flush has exactly one ArcSwap::load site, outside any loop, and every access to the snapshot's fields (root, appender table, error handler) goes through that one guard; (A2) Logger holds one Arc<ArcSwap<snapshot>>, the snapshot owns tree and appender table, has no interior mutability of its own, its aggregate is built only in the constructor and the tree's mutator is called only from the constructor and itself; (A3) Handle::set_config builds a complete snapshot from the new config before the single store, which lies on every path to return; (A4) the delivery cone of Log::log (cut at dyn Append/Filter) acquires no lock, so a re-entrant set_config cannot self-deadlock; (A5) reloader control flow: in run the Err arm returns to the loop head and only Ok(None) leaves; in run_once set_config is dominated by the Ok edge of Format::parse and control-dependent on the text having changed, the unchanged-mtime/unchanged-text edges return Ok(Some(rate)) without reaching the handle, and the new rate is the parsed config's refresh_rate(). arc-swap's own guarantees, real interleavings and file-system timestamps are not decided. (A12) no un-discharged panic site in what the refresh thread itself runs (the loop, run_once, reading the file, the error reporter); parsing, building and the swap are inventoried under C14.K8 / C13.V4."""
 LEVEL_NOTE = "Trusted: rustc MIR/callee resolution; arc-swap (atomic swap, guard keeps the old snapshot alive, store does not wait on readers); std fs timestamps."
 EXPLANATION = """Decided: A1 one snapshot per call, A2 immutable self-contained snapshot, A3 build-then-store, A4 no lock across delivery, A5 reloader loop and edges. Undecided: arc-swap internals, actual interleavings, file-system timestamp behaviour."""
 DECIDED = ["A1 single load dominating all snapshot accesses", "A2 snapshot immutability/ownership", "A3 complete build before single store", "A4 lock-free delivery", "A5 reloader control flow", "A6 the reloader is started with the text that was loaded and a modification time read right beside it", "A7 changes detected through the path", "A8 remembered text is the text last read", "A9 whole-document parsers", "A10 the lossy build leaves no dangling reference (C13.V2 re-evaluated)"]
@@ -236,6 +236,20 @@ def rule_reloader_flow(ctx, p, cfg, rid="A5"):
         starts = p.all_calls(RUN)
         r.require(len(starts) == 1, "reloader-started-once", detail="callers of ConfigReloader::run: %s" % [c.fn.path for c in starts])
 
+
+def rule_thread_survives(ctx, p, cfg, rid="A12"):
+    """`errors keep it polling` also needs the thread to live through them: nothing the loop itself runs - polling, reading the
+    file, reporting an error - has an un-discharged panic site (parsing, building and the swap are inventoried by C14.K8 / C13.V4)."""
+    from l4sa import panics
+    from rules import c14
+    with ctx.rule(rid, "the refresh thread does not die of an error", cfg) as r:
+        building = (PARSE, SET_CONFIG, "config::file::deserialize")
+        cone = p.cone([RUN], cut_traits=c14.CUT, stop=building) - set(building)
+        r.floor("thread-cone", len(cone), 5)
+        r.require("handle_error" in cone, "reporter-in-cone", detail="the error reporter is part of what the thread runs")
+        st = panics.check_cone(r, p, cone, "C15")
+        ctx.extra.setdefault("panic_inventory", {})[cfg] = dict(st, cone=len(cone))
+
 def run_cfg(ctx, p, cfg):
     if "config_parsing" in p.meta.get("features", []):
         # "without panicking": the reloader installs what the lossy build kept; the install indexes the appender table by every
@@ -332,6 +346,14 @@ def run_cfg(ctx, p, cfg):
         src = st.arg(3) if len(st.args) > 3 else None
         r.require(src is not None and any(x[0] == "call" and len(x) > 3 and x[3] == rd.block for x in walk(src)), "reloader-gets-the-loaded-text", fn=f, site=st.at,
                   detail="ConfigReloader::start receives the text read by read_config")
+        # ... and the path it polls is the path it was given, as a name: resolved once (canonicalize, read_link, an absolute form taken
+        # at start-up) it would keep naming the old target after a symlink is re-pointed or a directory is swapped
+        pa = st.arg(0) if st.args else None
+        calls_ = [x[1] for x in walk(pa) if x[0] == "call"] if pa is not None else []
+        foreign = [c_ for c_ in calls_ if c_.rsplit("::", 1)[-1] not in ("to_path_buf", "as_ref", "to_owned", "into", "from", "clone", "borrow", "deref", "as_path", "new")]
+        r.require(pa is not None and any(x == ("param", 1) for x in walk(pa)) and not foreign, "reloader-polls-the-path-given", fn=f, site=st.at,
+                  detail="ConfigReloader::start receives the path argument itself: %s" % (show(pa, 5) if pa is not None else None),
+                  fail_detail="the path handed to the reloader is %s: not the name the caller gave (%s) - a change delivered by re-pointing a symlink or swapping a directory is never seen" % (show(pa, 6) if pa is not None else None, foreign[:3]))
 
     with ctx.rule("A7", "changes are detected through the path", cfg) as r:
         # a handle kept open across polls keeps naming the old inode after the file is replaced (editors save by rename)
@@ -380,3 +402,4 @@ def run_cfg(ctx, p, cfg):
                       detail="every path that installs a configuration has replaced the remembered text first")
 
     rule_reloader_flow(ctx, p, cfg, "A5")
+    rule_thread_survives(ctx, p, cfg, "A12")
